@@ -290,3 +290,34 @@ def r5(ctx: Ctx) -> None:
                  ("set", ("a", ("a", s_, "lhs"), "c"), k_num(0))]
     if [t for t in tail if t[1][2] in ("lhs", "rhs", "c")] != want_tail:
         ctx.report(f.where, "ineq-bound", "Ineq.__init__ does not set lhs = lhs - rhs, rhs = -lhs.c, lhs.c = 0 in this order", lineno=f.node.lineno)
+
+
+@rule("C16", "R4.term-ownership", "ALIAS",
+      "every expression owns its terms: Expr.__init__ stores a fresh Term (with a fresh Literal) for every entry of the "
+      "table it is given, so the in-place coefficient updates of __add__ / __mul__ on the copy cannot rewrite an operand", floor=2)
+def r4(ctx: Ctx) -> None:
+    f = ctx.func(PB, "Expr.__init__")
+    c = canon_function(f, ctx.model)
+    t = ("p", 1)
+    s_ = ("self",)
+    loops = [lp for lp in atoms_of(c, lambda x: x[0] == "for" and len(x) == 5)]
+    ctx.site(f.where, "Expr.__init__ copies every term into a fresh Term")
+    ok = False
+    for lp in loops:
+        v = lp[1]
+        want = ("set", ("s", ("a", s_, "t"), v), ("c", ("g", "Term"), (("a", ("s", lp[2] if lp[2][0] != "c" else t, v), "L"), ("a", ("s", lp[2] if lp[2][0] != "c" else t, v), "c")), ()))
+        if want in lp[3] and (lp[2] == t or lp[2][0] == "v" or lp[2] == ("c", ("a", t, "keys"), (), ())):
+            ok = True
+    # the table itself must be a new mapping, never the argument
+    tabs = [st for st in atoms_of(c, lambda x: x[0] == "set" and len(x) == 3 and x[1] == ("a", s_, "t"))]
+    fresh_tab = len(tabs) == 1 and tabs[0][2][0] == "c" and not tabs[0][2][2] and not contains(tabs[0][2], t)
+    if not ok or not fresh_tab:
+        ctx.report(f.where, f"terms-shared copy-loop={ok} fresh-table={fresh_tab}", "Expr.__init__ does not build its own table of fresh Term objects: the result of e + x / e * k shares Term "
+                   "objects with e, and the in-place coefficient updates rewrite e as well", lineno=f.node.lineno)
+    g = ctx.func(PB, "Term.__init__")
+    cg = canon_function(g, ctx.model)
+    lit = ("p", 0)
+    ctx.site(g.where, "Term.__init__ copies the literal (sign flips are done in place)")
+    want = ("set", ("a", s_, "L"), ("c", ("g", "Literal"), (("a", lit, "v"), ("a", lit, "s")), ()))
+    if want not in cg:
+        ctx.report(g.where, "literal-shared", "Term.__init__ keeps a reference to the caller's Literal: the in-place sign flip of the normal form would change the caller's literal", lineno=g.node.lineno)
